@@ -643,6 +643,9 @@ public:
         assert(ty.is_integer() || ty.is_real());
         m_base_dom.assign(scalar_lhs, scalar_rhs);
       }
+    } else {
+      // nothing is known about rhs: lhs cannot keep its old contents
+      this->operator-=(lhs);
     }
   }
 
